@@ -171,3 +171,25 @@ EXTRA5 = {
 for _pid, _x in EXTRA5.items():
     if _pid in CLAIMED:
         CLAIMED[_pid]["text"] += _x
+
+EXTRA6 = {
+ "C01": " Round 6: the index record is removed from under an iterator only by compare-and-delete (C07-R2/R3, C17-R3 imported into R1); the records conditions are evaluated on carry no engine TTL except the classified Event create (C17-R5 as R8).",
+ "C02": " Round 6: C01-R1 (the index record is never removed or replaced behind a conditional write) imported into R5.",
+ "C03": " Round 6: a retried scan attempt reads the snapshot the read was admitted on (C08-R2/R3 into R4); the TiKV region listing is not truncated (C13-R5).",
+ "C05": " Round 6: one party per end of a watch's channels (R12): the hub never receives from a subscriber channel, Watch starts one consumer, and nothing sends on the result channel once the forwarder runs.",
+ "C06": " Round 6: replayed and live events reach the client through one sender at a time (C05-R12 as R7).",
+ "C07": " Round 6: compaction ranges (R9): two borders per prefix from the same key, sorted after the last append, consumed pairwise.",
+ "C08": " Round 6: the worker's snapshot timestamp is assigned only where the floor is checked (R3); the compaction record carries no engine TTL (C17-R5 as R6).",
+ "C11": " Round 6: the in-process engine's conditions see the batch's own staged operations (R12) and it never writes a stored value in place (R13).",
+ "C12": " Round 6: C11-R12/R13 added to the sibling table (R0); the scan-based expiry deletes under an age guard on the record's own revision (C17-R2/R3 as R6); advertised partition borders (C13-R9 into R4).",
+ "C13": " Round 6: channel form of the scan's join recognised, an early exit of the collecting loop is a violation (R3); the merged list is filled by partition index (R3); region listing not truncated (R5); engine borders are advertised only realigned, as first start / last end, or when not a version key (R9; found and fixed cde5c92).",
+ "C14": " Round 6: the lock record carries no engine TTL (C17-R5 as R8); observed bytes are not rewritten in place by the in-process engine (C11-R13 as R9).",
+ "C15": " Round 6: Describe() formats the timestamp field on every path, never a constant merged in (R2).",
+ "C16": " Round 6: partition results are merged in partition order (C13-R3 into R6).",
+ "C17": " Round 6: the age guard's operand is not pinned to a constant by an enclosing branch (R2).",
+ "C18": " Round 6: the request and decode errors of the leader fetch are returned (R6; found and fixed f4216ff).",
+ "C20": " Round 6: a collector is registered only on the miss edge of a registry lookup made under the write lock (R9); boolean helpers are expanded in the length-test rule (R4).",
+}
+for _pid, _x in EXTRA6.items():
+    if _pid in CLAIMED:
+        CLAIMED[_pid]["text"] += _x
